@@ -41,7 +41,8 @@ def _compiled_divide(a, b):
     """a%b in compiled code. The Divide verb answers :undefined for a zero divisor; Python's
     "/" raises for a Python zero (the caller then falls back to the interpreter) but returns
     inf/nan for a NumPy scalar zero such as the result of +/a. Raise for that case as well."""
-    if isinstance(b, (np.generic, np.ndarray)) and np.ndim(b) == 0 and np.ndim(a) == 0 and b == 0:
+    if np.ndim(a) == 0 and np.ndim(b) == 0 and b == 0:
+        # also a NumPy scalar dividend over a Python zero gives inf/nan instead of raising
         raise ZeroDivisionError("division by zero")
     return a / b
 
